@@ -40,6 +40,7 @@ package xsync
 //@ ghost tview : [Addr][string]opt[interface{}]
 //@ ghost slotb : [Addr][string]Addr
 //@ ghost sloti : [Addr][string]int
+//@ ghost occ : [Addr]int
 //@ define tab(m) = as(m.table, "*mapTable")
 //@ define nbk(t) = len(t.buckets)
 //@ define root(t, j) = addr(t.buckets[j])
@@ -100,7 +101,7 @@ package xsync
 //@   serves C13 C14
 //@   requires m != nil
 //@   effect blocking nolocks
-//@   modifies allmem, view(m), tview, slotb, sloti, tbl, ridx, pos, clen
+//@   modifies allmem, view(m), tview, slotb, sloti, tbl, ridx, pos, clen, occ
 //@   ensures assumed private keeps: mapRI(m) && view(m) == old(view(m)) && tab(m) == old(tab(m))
 //@   loop for.loop: invariant param: true
 //@   ensures {C13} post.released: nheld() == 0
@@ -109,7 +110,9 @@ package xsync
 //@   serves C13 C14
 //@   requires m != nil && knownTable != nil && tblShape(knownTable) && tblShape(tab(m)) && pow2(m.minTableLen) && 0 <= hint && hint <= 2
 //@   effect blocking nolocks
-//@   modifies allmem, tview, slotb, sloti, tbl, ridx, pos, clen
+//@   modifies allmem, tview, slotb, sloti, tbl, ridx, pos, clen, occ
+//@   oncall copyBucket: {C03,C11} source.current: arg0 == root(as(currenttable(), "*mapTable"), u64(i)) && arg1 == newTable
+//@   oncall addSizePlain: {C08,C11} recount: arg2 == lastret("copyBucket", 0) && arg0 == newTable && arg1 == u64(i)
 //@   loop for.loop: invariant shape: newTable != nil && tblShape(newTable) && tblShape(table) && table != nil && 0 <= i
 //@   ensures assumed private keeps: hint != 2 ==> mapRIx(m) && tview[tab(m)] == old(tview[tab(m)])
 //@   ensures {C13} monitor.no-lost-wakeup: monitorOK()
@@ -162,7 +165,7 @@ package xsync
 //@   requires m != nil && mapInv(m) && valueFn != nil
 //@   requires private mapRI(m)
 //@   opaque pure valueFn
-//@   modifies view(m), allmem, tview, slotb, sloti, tbl, ridx, pos, clen
+//@   modifies view(m), allmem, tview, slotb, sloti, tbl, ridx, pos, clen, occ
 //@   let o = old(view(m))[key]
 //@   let called = !(loadIfExists && present(o))
 //@   onlock {C03} quiescent: mapInv(m) && mapRIc(m) && view(m) == tview[tab(m)] && hdrStable(table)
@@ -180,6 +183,8 @@ package xsync
 //@   loop for.loop: decreases 3 - i
 //@   oncall valueFn: {C05,C13} under-root-lock: nheld() == 1 && holds(addr(rootb.topHashMutex))
 //@   oncall valueFn: {C05,C03} validated: validated()
+//@   oncall addSize: {C08,tintf} counter.same-table: arg0 == validatedtable()
+//@   oncall addSize: {C08,tintf} counter.delta: arg2 == occ[arg0] - old(occ)[arg0]
 //@   calls when(called, valueFn(valOr0(o), present(o))) -> (nv, del)
 //@   ghostsync view(m) := tview[tab(m)]
 //@   ensures {C05} valueFn.atmostonce: ncb(valueFn) <= 1
@@ -199,6 +204,7 @@ package xsync
 //@   ensures private {C11,C03,seq} post.ri.locksFree: locksFree(tab(m))
 //@   ensures private {C11,C03} post.ri.view: view(m) == tview[tab(m)]
 //@   ensures private {C11,C03} post.ri.sep: sepT(m, tab(m)) && sepB(m, tab(m))
+//@   ensures {C08,tintf} counter.once: ncall("addSize") <= 1 && ((ncall("addSize") == 0) == (occ[validatedtable()] == old(occ)[validatedtable()]))
 //@   ensures mapInv(m)
 
 //@ -- twin-end MapDisc
@@ -248,7 +254,7 @@ package xsync
 //@   serves C13 C14
 //@   requires m != nil
 //@   effect blocking nolocks
-//@   modifies allmem, view(m), tviewOf, slotbOf, slotiOf, tbl, ridx, pos, clen
+//@   modifies allmem, view(m), tviewOf, slotbOf, slotiOf, tbl, ridx, pos, clen, occ
 //@   ensures assumed private keeps: mapOfRI(m) && view(m) == old(view(m)) && tabOf(m) == old(tabOf(m))
 //@   loop for.loop: invariant param: true
 //@   ensures {C13} post.released: nheld() == 0
@@ -257,7 +263,9 @@ package xsync
 //@   serves C13 C14
 //@   requires m != nil && knownTable != nil && tblShapeOf(knownTable) && tblShapeOf(tabOf(m)) && pow2(m.minTableLen) && 0 <= hint && hint <= 2
 //@   effect blocking nolocks
-//@   modifies allmem, tviewOf, slotbOf, slotiOf, tbl, ridx, pos, clen
+//@   modifies allmem, tviewOf, slotbOf, slotiOf, tbl, ridx, pos, clen, occ
+//@   oncall copyBucketOf: {C04,C11} source.current: arg0 == rootO(as(currenttable(), "*mapOfTable"), u64(i)) && arg1 == newTable
+//@   oncall addSizePlain: {C08,C11} recount: arg2 == lastret("copyBucketOf", 0) && arg0 == newTable && arg1 == u64(i)
 //@   loop for.loop: invariant shape: newTable != nil && tblShapeOf(newTable) && tblShapeOf(table) && table != nil && 0 <= i
 //@   ensures assumed private keeps: hint != 2 ==> mapOfRIx(m) && tviewOf[tabOf(m)] == old(tviewOf[tabOf(m)])
 //@   ensures {C13} monitor.no-lost-wakeup: monitorOK()
@@ -303,7 +311,7 @@ package xsync
 //@   requires m != nil && mapInv(m) && valueFn != nil
 //@   requires private mapOfRI(m)
 //@   opaque pure valueFn
-//@   modifies view(m), allmem, tviewOf, slotbOf, slotiOf, tbl, ridx, pos, clen
+//@   modifies view(m), allmem, tviewOf, slotbOf, slotiOf, tbl, ridx, pos, clen, occ
 //@   let o = old(view(m))[key]
 //@   let called = !(loadIfExists && present(o))
 //@   onlock {C04} quiescent: mapInv(m) && mapOfRIc(m) && view(m) == tviewOf[tabOf(m)] && hdrStable(table) && m.hasher == old(m.hasher)
@@ -316,30 +324,33 @@ package xsync
 //@   loop for.body: decreases clen[rootOfO(table, b)] - pos[b]
 //@   loop for.loop: invariant marks: markOK(markedw) && b != nil && rootb != nil && holds(addr(rootb.mu)) && table == tabOf(m) && ncb(valueFn) == 0 && metaw == b.meta
 //@   loop for.loop: invariant {C11,C04} walk: own(table, b) && ridx[b] == idxOfO(m, table, key) && rootb == rootO(table, idxOfO(m, table, key)) && hash == hashOf(m, table, key) && h2 == h2(hash) && h2w == broadcast(h2(hash)) && (present(o) ==> pos[slotbOf[table][key]] >= pos[b])
-//@   loop for.loop: invariant {C11,C04} scanned: (markedw & ^(markZeroBytes(metaw ^ h2w) & 1099511627775)) == 0 && (forall j: int :: 0 <= j && j < 5 && mbit(markZeroBytes(metaw ^ h2w), j) && !mbit(markedw, j) ==> !(b.entries[j] != nil && entAt(b, j).key == key))
+//@   loop for.loop: invariant {C11,C04,C10} scanned: (markedw & ^(markZeroBytes(metaw ^ h2w) & 1099511627775)) == 0 && (forall j: int :: 0 <= j && j < 5 && mbit(markZeroBytes(metaw ^ h2w), j) && !mbit(markedw, j) ==> !(b.entries[j] != nil && entAt(b, j).key == key))
 //@   loop for.loop: invariant {C11,C04} empty: emptyb != nil ==> own(table, emptyb) && ridx[emptyb] == idxOfO(m, table, key) && 0 <= emptyidx && emptyidx < 5 && emptyb.entries[emptyidx] == nil
 //@   loop for.loop: decreases markedw
 //@   oncall valueFn: {C05,C13} under-root-lock: nheld() == 1 && holds(addr(rootb.mu))
 //@   oncall valueFn: {C05,C04} validated: validated()
+//@   oncall addSize: {C08,tintf} counter.same-table: arg0 == validatedtable()
+//@   oncall addSize: {C08,tintf} counter.delta: arg2 == occ[arg0] - old(occ)[arg0]
 //@   calls when(called, valueFn(valOr0(o), present(o))) -> (nv, del)
 //@   ghostsync view(m) := tviewOf[tabOf(m)]
 //@   ensures {C05} valueFn.atmostonce: ncb(valueFn) <= 1
 //@   ensures {C05} valueFn.once-unless-loaded: ncb(valueFn) == 1 || loadIfExists
 //@   ensures {C16} fastpath.nolock: loadIfExists && ncall("Load") == 1 && lastret("Load", 1) ==> nacquire() == 0 && nblocking() == 0
-//@   ensures {C11,C04} post.loaded: !called ==> res0 == val(o) && res1 == !computeOnly && view(m) == old(view(m))
-//@   ensures {C11,C04} post.deleted.view: called && del ==> view(m) == remove(old(view(m)), key)
-//@   ensures {C11,C04} post.deleted.res: called && del ==> res0 == valOr0(o) && res1 == (present(o) && !computeOnly)
-//@   ensures {C11,C04} post.stored.view: called && !del ==> view(m) == put(old(view(m)), key, nv)
-//@   ensures {C11,C04} post.stored.res: called && !del ==> res0 == ite(computeOnly || !present(o), nv, val(o)) && res1 == (computeOnly || present(o))
+//@   ensures {C11,C04,C10} post.loaded: !called ==> res0 == val(o) && res1 == !computeOnly && view(m) == old(view(m))
+//@   ensures {C11,C04,C10} post.deleted.view: called && del ==> view(m) == remove(old(view(m)), key)
+//@   ensures {C11,C04,C10} post.deleted.res: called && del ==> res0 == valOr0(o) && res1 == (present(o) && !computeOnly)
+//@   ensures {C11,C04,C10} post.stored.view: called && !del ==> view(m) == put(old(view(m)), key, nv)
+//@   ensures {C11,C04,C10} post.stored.res: called && !del ==> res0 == ite(computeOnly || !present(o), nv, val(o)) && res1 == (computeOnly || present(o))
 //@   ensures private {C11,C04,seq} post.ri.resizing: m.resizing == 0
 //@   ensures private {C11,C04} post.ri.shape: m != nil && m.hasher != nil && pow2(m.minTableLen) && tblShapeOf(tabOf(m))
 //@   ensures private {C11,C04} post.ri.chains: chainsO(tabOf(m))
 //@   ensures private {C11,C04} post.ri.roots: rootsO(tabOf(m))
 //@   ensures private {C11,C04} post.ri.inj: chainsInjO(tabOf(m))
-//@   ensures private {C11,C04} post.ri.slots: slotsO(m, tabOf(m))
-//@   ensures private {C11,C04} post.ri.viewSlots: viewSlotsO(tabOf(m))
+//@   ensures private {C11,C04,C10} post.ri.slots: slotsO(m, tabOf(m))
+//@   ensures private {C11,C04,C10} post.ri.viewSlots: viewSlotsO(tabOf(m))
 //@   ensures private {C11,C04} post.ri.view: view(m) == tviewOf[tabOf(m)]
 //@   ensures private {C11,C04} post.ri.sep: sepTO(m, tabOf(m)) && sepBO(m, tabOf(m))
+//@   ensures {C08,tintf} counter.once: ncall("addSize") <= 1 && ((ncall("addSize") == 0) == (occ[validatedtable()] == old(occ)[validatedtable()]))
 //@   ensures mapInv(m)
 
 //@ func newMapTable
@@ -376,7 +387,7 @@ package xsync
 //@   requires m != nil && mapInv(m)
 //@   modifies view(m)
 //@   requires private mapRI(m)
-//@   modifies private allmem, tview, slotb, sloti, tbl, ridx, pos, clen
+//@   modifies private allmem, tview, slotb, sloti, tbl, ridx, pos, clen, occ
 //@   ensures {C11,C03} post.state: view(m) == put(old(view(m)), key, value)
 //@   ensures assumed {C08} post.card: card(view(m)) == cardPut(old(view(m)), key)
 //@   ensures private {C11,C03} post.ri: mapRI(m)
@@ -389,7 +400,7 @@ package xsync
 //@   calls locked valueFn(valOr0(o), present(o)) -> (nv, del)
 //@   modifies view(m)
 //@   requires private mapRI(m)
-//@   modifies private allmem, tview, slotb, sloti, tbl, ridx, pos, clen
+//@   modifies private allmem, tview, slotb, sloti, tbl, ridx, pos, clen, occ
 //@   ensures {C11,C03} post.del: del ==> view(m) == remove(old(view(m)), key) && actual == valOr0(o) && !ok
 //@   ensures {C11,C03} post.upd: !del ==> view(m) == put(old(view(m)), key, nv) && actual == nv && ok
 //@   ensures assumed {C08} post.card: card(view(m)) == ite(del, cardDel(old(view(m)), key), cardPut(old(view(m)), key))
@@ -402,7 +413,7 @@ package xsync
 //@   let o = old(view(m))[key]
 //@   modifies view(m)
 //@   requires private mapRI(m)
-//@   modifies private allmem, tview, slotb, sloti, tbl, ridx, pos, clen
+//@   modifies private allmem, tview, slotb, sloti, tbl, ridx, pos, clen, occ
 //@   ensures {C11,C03} post.state: view(m) == remove(old(view(m)), key)
 //@   ensures assumed {C08} post.card: card(view(m)) == cardDel(old(view(m)), key)
 //@   ensures {C11,C03} post.value: value == valOr0(o) && loaded == present(o)
@@ -414,7 +425,7 @@ package xsync
 //@   requires m != nil && mapInv(m)
 //@   modifies view(m)
 //@   requires private mapRI(m)
-//@   modifies private allmem, tview, slotb, sloti, tbl, ridx, pos, clen
+//@   modifies private allmem, tview, slotb, sloti, tbl, ridx, pos, clen, occ
 //@   ensures {C11,C03} post.state: view(m) == remove(old(view(m)), key)
 //@   ensures assumed {C08} post.card: card(view(m)) == cardDel(old(view(m)), key)
 //@   ensures private {C11,C03} post.ri: mapRI(m)
@@ -471,7 +482,7 @@ package xsync
 //@   requires m != nil && mapInv(m)
 //@   modifies view(m)
 //@   requires private mapOfRI(m)
-//@   modifies private allmem, tviewOf, slotbOf, slotiOf, tbl, ridx, pos, clen
+//@   modifies private allmem, tviewOf, slotbOf, slotiOf, tbl, ridx, pos, clen, occ
 //@   ensures {C11,C04} post.state: view(m) == put(old(view(m)), key, value)
 //@   ensures assumed {C08} post.card: card(view(m)) == cardPut(old(view(m)), key)
 //@   ensures private {C11,C04} post.ri: mapOfRI(m)
@@ -484,7 +495,7 @@ package xsync
 //@   calls locked valueFn(valOr0(o), present(o)) -> (nv, del)
 //@   modifies view(m)
 //@   requires private mapOfRI(m)
-//@   modifies private allmem, tviewOf, slotbOf, slotiOf, tbl, ridx, pos, clen
+//@   modifies private allmem, tviewOf, slotbOf, slotiOf, tbl, ridx, pos, clen, occ
 //@   ensures {C11,C04} post.del: del ==> view(m) == remove(old(view(m)), key) && actual == valOr0(o) && !ok
 //@   ensures {C11,C04} post.upd: !del ==> view(m) == put(old(view(m)), key, nv) && actual == nv && ok
 //@   ensures assumed {C08} post.card: card(view(m)) == ite(del, cardDel(old(view(m)), key), cardPut(old(view(m)), key))
@@ -497,7 +508,7 @@ package xsync
 //@   let o = old(view(m))[key]
 //@   modifies view(m)
 //@   requires private mapOfRI(m)
-//@   modifies private allmem, tviewOf, slotbOf, slotiOf, tbl, ridx, pos, clen
+//@   modifies private allmem, tviewOf, slotbOf, slotiOf, tbl, ridx, pos, clen, occ
 //@   ensures {C11,C04} post.state: view(m) == remove(old(view(m)), key)
 //@   ensures assumed {C08} post.card: card(view(m)) == cardDel(old(view(m)), key)
 //@   ensures {C11,C04} post.value: value == valOr0(o) && loaded == present(o)
@@ -509,7 +520,7 @@ package xsync
 //@   requires m != nil && mapInv(m)
 //@   modifies view(m)
 //@   requires private mapOfRI(m)
-//@   modifies private allmem, tviewOf, slotbOf, slotiOf, tbl, ridx, pos, clen
+//@   modifies private allmem, tviewOf, slotbOf, slotiOf, tbl, ridx, pos, clen, occ
 //@   ensures {C11,C04} post.state: view(m) == remove(old(view(m)), key)
 //@   ensures assumed {C08} post.card: card(view(m)) == cardDel(old(view(m)), key)
 //@   ensures private {C11,C04} post.ri: mapOfRI(m)
